@@ -868,7 +868,7 @@ class Curve(SplineGeometry):
         stop = self.knotvector[-(self.degree+1)]
 
         # Set delta value
-        self.delta = (stop - start) / float(value)
+        self.delta = 1.0 / float(value)
 
     @property
     def delta(self):
@@ -1511,7 +1511,7 @@ class Surface(SplineGeometry):
         stop_u = self.knotvector_u[-(self.degree_u+1)]
 
         # Set delta values
-        self.delta_u = (stop_u - start_u) / float(value)
+        self.delta_u = 1.0 / float(value)
 
     @property
     def sample_size_v(self):
@@ -1543,7 +1543,7 @@ class Surface(SplineGeometry):
         stop_v = self.knotvector_v[-(self.degree_v+1)]
 
         # Set delta values
-        self.delta_v = (stop_v - start_v) / float(value)
+        self.delta_v = 1.0 / float(value)
 
     @property
     def sample_size(self):
@@ -1582,8 +1582,8 @@ class Surface(SplineGeometry):
         stop_v = self.knotvector_v[-(self.degree_v+1)]
 
         # Set delta values
-        self.delta_u = (stop_u - start_u) / float(value)
-        self.delta_v = (stop_v - start_v) / float(value)
+        self.delta_u = 1.0 / float(value)
+        self.delta_v = 1.0 / float(value)
 
     @property
     def delta_u(self):
@@ -2561,7 +2561,7 @@ class Volume(SplineGeometry):
         stop_u = self.knotvector_u[-(self.degree_u + 1)]
 
         # Set delta values
-        self.delta_u = (stop_u - start_u) / float(value)
+        self.delta_u = 1.0 / float(value)
 
     @property
     def sample_size_v(self):
@@ -2593,7 +2593,7 @@ class Volume(SplineGeometry):
         stop_v = self.knotvector_v[-(self.degree_v + 1)]
 
         # Set delta values
-        self.delta_v = (stop_v - start_v) / float(value)
+        self.delta_v = 1.0 / float(value)
 
     @property
     def sample_size_w(self):
@@ -2625,7 +2625,7 @@ class Volume(SplineGeometry):
         stop_w = self.knotvector_w[-(self.degree_w + 1)]
 
         # Set delta values
-        self.delta_w = (stop_w - start_w) / float(value)
+        self.delta_w = 1.0 / float(value)
 
     @property
     def sample_size(self):
@@ -2668,9 +2668,9 @@ class Volume(SplineGeometry):
         stop_w = self.knotvector_w[-(self.degree_w + 1)]
 
         # Set delta values
-        self.delta_u = (stop_u - start_u) / float(value)
-        self.delta_v = (stop_v - start_v) / float(value)
-        self.delta_w = (stop_w - start_w) / float(value)
+        self.delta_u = 1.0 / float(value)
+        self.delta_v = 1.0 / float(value)
+        self.delta_w = 1.0 / float(value)
 
     @property
     def delta_u(self):
